@@ -74,8 +74,10 @@ func kindOfSyscall(s sysLine) string {
 			return "creat"
 		}
 		return "open"
-	case "write":
+	case "write", "writev", "pwrite64", "pwritev", "pwritev2":
 		return "write"
+	case "link", "linkat", "symlink", "symlinkat", "truncate", "ftruncate":
+		return s.name // not in the model's vocabulary: a writer that starts using them shows as a non-conformance
 	case "close":
 		return "close"
 	case "renameat2", "rename", "renameat":
@@ -156,7 +158,7 @@ func realBinaryLayer(r *hx.Run) {
 		}
 		root, dir := mk()
 		tracePath := filepath.Join(scratch, "trace.txt")
-		cmd := exec.Command("strace", "-f", "-o", tracePath, "-e", "trace=openat,open,write,close,renameat2,renameat,rename,unlink,unlinkat,mkdir,mkdirat", helper, dir, "target"+cfg.Ext, "new")
+		cmd := exec.Command("strace", "-f", "-o", tracePath, "-e", "trace=openat,open,write,writev,pwrite64,pwritev,pwritev2,close,renameat2,renameat,rename,unlink,unlinkat,mkdir,mkdirat,rmdir,link,linkat,symlink,symlinkat,truncate,ftruncate", helper, dir, "target"+cfg.Ext, "new")
 		out, err := cmd.CombinedOutput()
 		if err != nil || !strings.Contains(string(out), "ok") {
 			r.Extra["real_binary"] = fmt.Sprintf("skipped: strace run failed (%v: %s)", err, firstLineOf(string(out)))
@@ -222,7 +224,7 @@ func realBinaryLayer(r *hx.Run) {
 			seen[in.spec] = true
 			_, dir := mk()
 			var stderr bytes.Buffer
-			cmd := exec.Command("strace", "-f", "-o", tracePath, "-e", "trace=openat,write,close,renameat2,mkdirat,unlinkat", "-e", in.spec, helper, dir, "target"+cfg.Ext, "new")
+			cmd := exec.Command("strace", "-f", "-o", tracePath, "-e", "trace=openat,write,writev,pwrite64,close,renameat2,mkdirat,unlinkat", "-e", in.spec, helper, dir, "target"+cfg.Ext, "new")
 			cmd.Stderr = &stderr
 			_ = cmd.Run()
 			runs++
